@@ -16,6 +16,18 @@ pub struct C18Case
     pub check_mode: bool,
     /// restrict to one (signal, boundary) — hand-written regression inputs
     pub only: Option<(i32, u64)>,
+    /// the subject's standard input is a terminal (a fresh pseudo-terminal) instead of /dev/null
+    #[serde(default)]
+    pub stdin_tty: bool,
+}
+
+struct TtyGuard;
+impl Drop for TtyGuard
+{
+    fn drop(&mut self)
+    {
+        crate::sandbox::STDIN_TTY.with(|c| c.set(false));
+    }
 }
 
 fn sig_name(s: i32) -> &'static str
@@ -35,6 +47,13 @@ pub fn check(case: &C18Case) -> CaseOutcome
     let mut o = CaseOutcome::default();
     // every line the subject prints is an operation boundary too ("at any moment")
     crate::sandbox::COUNT_STDIO.store(true, std::sync::atomic::Ordering::Relaxed);
+    let sequential_subject = subject_is_sequential();
+    crate::sandbox::STDIN_TTY.with(|c| c.set(case.stdin_tty));
+    let _tty = TtyGuard;
+    if case.stdin_tty
+    {
+        o.class("stdin-is-a-terminal");
+    }
     let (tree, files, missing, _) = case.tree.render();
     let names: Vec<String> = files.iter().map(|f| f.0.clone()).collect();
     let r = fault_run(&tree, case.check_mode, None, None);
@@ -71,7 +90,7 @@ pub fn check(case: &C18Case) -> CaseOutcome
         .count();
     // Does the subject work on one source file at a time? (a second source file opened while another one
     // is still open, in the fault-free run, shows a subject that processes files concurrently)
-    let sequential = subject_is_sequential() && !trace_shows_overlapping_source_files(&r.run.trace);
+    let sequential = sequential_subject && !trace_shows_overlapping_source_files(&r.run.trace);
     if !sequential
     {
         o.class("subject-processes-files-concurrently");
@@ -371,11 +390,12 @@ pub fn check(case: &C18Case) -> CaseOutcome
 
 pub fn strategy() -> BoxedStrategy<C18Case>
 {
-    (sized_tree(2, 8, 3, false, None), prop_oneof![2 => Just(false), 1 => Just(true)])
-        .prop_map(|(tree, check_mode)| C18Case {
+    (sized_tree(2, 8, 3, false, None), prop_oneof![2 => Just(false), 1 => Just(true)], prop_oneof![2 => Just(false), 1 => Just(true)])
+        .prop_map(|(tree, check_mode, stdin_tty)| C18Case {
             tree,
             check_mode,
             only: None,
+            stdin_tty,
         })
         .boxed()
 }
@@ -385,7 +405,7 @@ pub fn run(env: &Env, rec: &Recorder) -> (String, Vec<&'static str>)
     pbt_opts(env, rec, "signals", env.cases(40, 1000), 30, &strategy, &check);
     rec.set_exhaustive(true);
     (
-        "trees of 2-8 source files (some needing insertions, some not), both modes, both styles, cache on/off, lock absent/consistent; a recording run gives the K counted operations (file system calls on project and TMPDIR paths AND every line written to standard output / standard error); then for each of SIGTERM and SIGINT and EVERY boundary k in 1..=K+1 the signal is delivered immediately before operation k (LD_PRELOAD shim, thread-directed so that the handler has run before the operation starts), plus, for every boundary from the start of discovery on, a pair of signals (the second one 1-3 operations later), plus (edit mode) every lock-file write failed once (ENOSPC) followed by a signal at the later boundaries, each on a fresh copy. Oracle from the start of source discovery on: the process exits by itself; after the signal it starts work on at most one more source file (judged when a probe run over eight 400 KB files and the case's own runs show a subject that has one source file open at a time; a subject that works on several files at once finishes those); exit 0 only if nothing was left to do (edit: a following --check passes; check: no reference missing and every source file had been opened before the signal arrived); every source file untouched or a complete update; with the cache on and >= 1 file updated a parsable lock with next > every ID inserted. Before discovery: the process may be killed but then nothing is modified. exhaustive=true: all boundaries of each generated tree. Non-trivial = distinct (tree, mode, signal, boundary) strictly between the first and last source-file operation on a tree with >= 2 files needing work".to_string(),
+        "trees of 2-8 source files (some needing insertions, some not), both modes, standard input /dev/null or (one case in three) a terminal, both styles, cache on/off, lock absent/consistent; a recording run gives the K counted operations (file system calls on project and TMPDIR paths AND every line written to standard output / standard error); then for each of SIGTERM and SIGINT and EVERY boundary k in 1..=K+1 the signal is delivered immediately before operation k (LD_PRELOAD shim, thread-directed so that the handler has run before the operation starts), plus, for every boundary from the start of discovery on, a pair of signals (the second one 1-3 operations later), plus (edit mode) every lock-file write failed once (ENOSPC) followed by a signal at the later boundaries, each on a fresh copy. Oracle from the start of source discovery on: the process exits by itself; after the signal it starts work on at most one more source file (judged when a probe run over eight 400 KB files and the case's own runs show a subject that has one source file open at a time; a subject that works on several files at once finishes those); exit 0 only if nothing was left to do (edit: a following --check passes; check: no reference missing and every source file had been opened before the signal arrived); every source file untouched or a complete update; with the cache on and >= 1 file updated a parsable lock with next > every ID inserted. Before discovery: the process may be killed but then nothing is modified. exhaustive=true: all boundaries of each generated tree. Non-trivial = distinct (tree, mode, signal, boundary) strictly between the first and last source-file operation on a tree with >= 2 files needing work".to_string(),
         vec!["signals are delivered synchronously at libc call boundaries (kill(getpid()) from the interposer); asynchronous delivery inside a system call is not enumerated", "the harness resets SIGINT/SIGTERM to SIG_DFL in the child so that an inherited SIG_IGN cannot mask a missing handler"],
     )
 }
